@@ -1,5 +1,6 @@
 # C14 - transform previews match their applied result: the conjuncts that are per-function - a transform is applied only when it has
 # no raw conflicts (checked before the first file-system effect), and conflict resolution returns only a conflict-free transform.
+BUDGET_QUICK = 40        # the path-lookup invariant needs 10-15 s in cvc5 on a busy machine
 COMPREHENSION_IMAGE = True    # a mapped comprehension also yields: every element's value is contained in the result (used by iter_tree_children)
 ghost(clean=BOOL)          # the transform currently has no raw conflicts (find_raw_conflicts() would return nothing)
 exceptions(MalformedTransform="Exception")
